@@ -573,3 +573,47 @@ def run(check):
     else:
       r_ds.violate('handler failure stops dispatch', call, None, 'an exception in one handler ends Event.__call__: later handlers '
                    '(other receivers) are not notified', construct='try/except Exception around handler()')
+  rule_watermark_positive(check, cx, check.rule('R-C09-watermark-positive', 1, 'the relay low watermark is positive for every positive configuration (the space signal is attainable)'))
+
+
+def _positive(e, mod, depth=0):
+  """the expression is > 0 for every configuration with positive limits (settings are taken as positive numbers): products,
+  sums and quotients of positive terms, min/max of positive terms.  A difference is not - `MAX_QUEUE_SIZE - MAX_DATAPOINTS_PER_MESSAGE`
+  is <= 0 for a small queue or large messages."""
+  if isinstance(e, ast.Constant):
+    return isinstance(e.value, (int, float)) and not isinstance(e.value, bool) and e.value > 0
+  if isinstance(e, ast.Attribute) and isinstance(e.value, ast.Name) and e.value.id == 'settings':
+    return True
+  if isinstance(e, ast.Subscript) and isinstance(e.value, ast.Name) and e.value.id == 'settings':
+    return True
+  if isinstance(e, ast.BinOp) and isinstance(e.op, (ast.Mult, ast.Add, ast.Div)):
+    return _positive(e.left, mod, depth) and _positive(e.right, mod, depth)
+  if isinstance(e, ast.Call) and isinstance(e.func, ast.Name) and e.func.id in ('min', 'max', 'float') and e.args and not e.keywords:
+    return all(_positive(a, mod, depth) for a in e.args)
+  if isinstance(e, ast.Name) and depth < 4:
+    vals = mod.globals.get(e.id, [])
+    return bool(vals) and all(_positive(v, mod, depth + 1) for v in vals)
+  return False
+
+
+def rule_watermark_positive(check, cx, rule):
+  """the relay's low watermark is > 0 for every positive configuration: checkQueueSpace() fires queueHasSpace only when
+  queueSize < SEND_QUEUE_LOW_WATERMARK, so a watermark that can be <= 0 (a difference of two settings) leaves the receivers
+  paused for ever although the queue is empty."""
+  mod = check.repo.module('carbon.client')
+  vals = mod.globals.get('SEND_QUEUE_LOW_WATERMARK', [])
+  if not rule.require(bool(vals), 'carbon.client.SEND_QUEUE_LOW_WATERMARK is not bound at module level'):
+    return
+  for v in vals:
+    # a rebinding in terms of the previous value (W = min(W, ...)) is judged with the other bindings standing in for W
+    others = [o for o in vals if o is not v]
+
+    class _M(object):
+      globals = dict(mod.globals)
+    _M.globals['SEND_QUEUE_LOW_WATERMARK'] = others or []
+    if _positive(v, _M):
+      rule.ok('low watermark is a positive combination of settings', '%s:%d' % (mod.relpath, v.lineno), short(v, 70))
+    else:
+      rule.violate('low watermark can be <= 0', 'carbon.client:<module>', v, 'SEND_QUEUE_LOW_WATERMARK = `%s` is not positive for every '
+                   'positive configuration: with a watermark <= 0 the test `queueSize < SEND_QUEUE_LOW_WATERMARK` never holds, '
+                   'queueHasSpace never fires and the receivers stay paused with an empty queue' % short(v, 80))
